@@ -24,7 +24,7 @@ TITLE = "Transforming a 1D grid is a faithful change of variables"
 REQUIRED_HOOKS = ["BaseTransform.transform_1d_grid", "decided:weights-magnitude", "decided:weights-sign", "decided:domain-image", "decided:sum-identity"]
 FAM_TF = [c03.CLS[k] for k in c03.KINDS] + ["InverseRTransform"]
 REQUIRED_FAMILIES = FAM_TF + ["chain", "subdomain", "gl-linear-exactness", "exp-integral", "incidental", "pinned"]
-BUDGET = {"quick": 400, "thorough": 3000}
+BUDGET = {"quick": 900, "thorough": 7200}  # per-worker seconds; expected on 16 idle cores: quick ~10 s, thorough ~3-4 min
 MAX_DISCARD_FRACTION = 0.02
 
 RULES_M11 = ["GaussLegendre", "GaussChebyshev", "GaussChebyshevType2", "GaussChebyshevLobatto", "Trapezoidal", "RectangleRuleSineEndPoints", "TanhSinh", "Simpson", "MidPoint", "ClenshawCurtis", "FejerFirst", "FejerSecond", "TrefethenCC", "TrefethenGC2", "TrefethenGeneral", "TrefethenStripCC", "TrefethenStripGC2", "TrefethenStripGeneral", "SingleTanh"]
@@ -63,32 +63,40 @@ def _tf_grid(kinds):
 
 
 def _ns(tier, seed, i):
+    """n values of one (rule, transform variant): all of them in thorough; quick: two small ones and one of 60/120, rotating."""
     if tier == "thorough":
         return NS_ALL
-    small = NS_ALL[(i + seed) % 7 :: 7][:3]
+    small = [NS_ALL[(3 * i + seed) % 29], NS_ALL[(3 * i + seed + 13) % 29]]
     return sorted(set(small + [(60, 120)[(i + seed) % 2]]))
+
+
+def _pick(variants, tier, seed, salt, many):
+    """thorough: every parameter variant; quick: a seed-rotated subset (>= 1, so every (rule, class) pair is always present)."""
+    if tier == "thorough":
+        return variants
+    L = len(variants)
+    c = min(L, 8 if many else 4)
+    step = max(1, L // c)
+    return [variants[(seed * 7 + salt * 3 + t * step) % L] for t in range(c)]
 
 
 def cases(tier, seed):
     out = []
     i = 0
     for rules, kinds, invk in ((RULES_M11, KINDS_M11, INV_M11), (RULES_0INF, KINDS_0INF, INV_0INF)):
-        tfs = _tf_grid(kinds)
-        invs = [(k, p) for k, p in _tf_grid(invk) if (k in INV_M11 and p.get("rmin") in (0.0, 1.0)) or (k in INV_0INF and p.get("rmin", 0.0) == 0.0 and p.get("v", 0) < 2)]
-        for rule in rules:
-            for j, (kind, p) in enumerate(tfs):
-                # quick: every (rule, kind) pair, parameters rotate with the rule index and the seed
-                if tier == "quick" and (j + 3 * RULES_M11.index(rule) if rule in RULES_M11 else j + RULES_0INF.index(rule)) % (9 if kind in ("Knowles", "Handy", "HandyMod") else 3) != seed % 3:
-                    continue
-                for n in _ns(tier, seed, i):
+        for ri, rule in enumerate(rules):
+            for kind in kinds:
+                variants = [p for k, p in _tf_grid([kind])]
+                for p in _pick(variants, tier, seed, ri, kind in ("Knowles", "Handy", "HandyMod")):
                     i += 1
-                    out.append((c03.CLS[kind], {"rule": rule, "n": n, "tf": {"kind": kind, **p}}, 1.0 + n / 40))
-            for j, (kind, p) in enumerate(invs):
-                if tier == "quick" and (j + len(rule)) % 4 != seed % 4:
-                    continue
-                for n in _ns(tier, seed, i)[:: (1 if tier == "thorough" else 2)]:
+                    for n in _ns(tier, seed, i):
+                        out.append((c03.CLS[kind], {"rule": rule, "n": n, "tf": {"kind": kind, **p}}, 1.0 + n / 40))
+            for kind in invk:
+                variants = [p for k, p in _tf_grid([kind]) if (kind in INV_M11 and p.get("rmin") in (0.0, 1.0)) or (kind in INV_0INF and p.get("rmin", 0.0) == 0.0 and p.get("v", 0) < 2)]
+                for p in _pick(variants, tier, seed, ri + 5, kind in ("Knowles", "Handy", "HandyMod")):
                     i += 1
-                    out.append(("InverseRTransform", {"rule": rule, "n": n, "tf": {"kind": kind, **p}, "inv": True}, 1.0 + n / 40))
+                    for n in _ns(tier, seed, i):
+                        out.append(("InverseRTransform", {"rule": rule, "n": n, "tf": {"kind": kind, **p}, "inv": True}, 1.0 + n / 40))
     # chain T -> Inverse(T)
     for j, (kind, p) in enumerate(_tf_grid(["Becke", "MultiExp", "Knowles", "Handy", "HandyMod", "LinearFinite"])):
         if tier == "quick" and j % 6 != seed % 6:
@@ -96,7 +104,7 @@ def cases(tier, seed):
         for rule in ("GaussLegendre", "GaussChebyshev", "MidPoint", "FejerFirst"):
             for n in ((7, 30) if tier == "quick" else (3, 7, 16, 30, 60)):
                 out.append(("chain", {"rule": rule, "n": n, "tf": {"kind": kind, **p}}, 1.5))
-    for k in range(40 if tier == "quick" else 600):
+    for k in range(200 if tier == "quick" else 2000):
         out.append(("subdomain", {"k": k}, 1.0))
     for n in NS_ALL:
         for k in range(1 if tier == "quick" else 6):
@@ -186,6 +194,13 @@ def admissible(I, inv, tf, g):
     x = g.points
     if "lo" in ends and np.any(x <= lo):
         return False
+    if inv and "lo" in ends:
+        # a node whose image is indistinguishable (in float64) from the end where T' = 0, e.g. ExpExp(121)'s first node
+        # 1.5e-178 through Inverse(Handy): T.inverse gives exactly -1 and 1/T'(-1) is the documented ZeroDivisionError
+        with np.errstate(all="ignore"):
+            img = np.asarray(tf.transform(x), dtype=float)
+        if np.any(img <= min(tf.codomain)):
+            return False
     if "hi" in ends and np.any(x >= hi):
         return False
     return bool(np.all(np.isfinite(x)) and np.all(np.isfinite(g.weights)))
